@@ -3252,14 +3252,18 @@ impl KotoVm {
 
         // Copy any extra arguments into the generator vm,
         // they'll get extracted into a tuple in apply_variadic_arguments
-        generator_vm.registers.extend(
-            self.register_slice(
-                call_arg_base + expected_arg_count,
-                call_info.arg_count.saturating_sub(expected_arg_count),
-            )
-            .iter()
-            .cloned(),
-        );
+        //
+        // The id of the first extra argument is only calculated when there are extra arguments
+        // (i.e. when it refers to an existing register): with many optional arguments that weren't
+        // provided by the caller the u8 register id would overflow.
+        let extra_arg_count = call_info.arg_count.saturating_sub(expected_arg_count);
+        if extra_arg_count > 0 {
+            generator_vm.registers.extend(
+                self.register_slice(call_arg_base + expected_arg_count, extra_arg_count)
+                    .iter()
+                    .cloned(),
+            );
+        }
 
         // Move variadic arguments into a tuple
         apply_variadic_arguments(
